@@ -1,3 +1,76 @@
-(* Props/C01.v -- placeholder; the field-level theorems are added below *)
-From PraatIO Require Import IO.IoModel.
-Theorem C01_placeholder : True. Proof. exact I. Qed.
+(* Props/C01.v -- TextGrid save/open round trip: the text layer.
+   Property theorems only; proofs are in IO/CodecProofs.v. *)
+From Coq Require Import String.
+From PraatIO Require Import IO.IoModel IO.CodecProofs.
+Open Scope Z_scope.
+
+(* un-doubling the doubled form is the identity, for every label and name *)
+Theorem C01_unescape_escape l : unesc (esc l) = l.
+Proof. exact (unesc_esc l). Qed.
+Print Assumptions C01_unescape_escape.
+
+(* doubling commutes with trimming (neither adds nor removes white space) *)
+Theorem C01_strip_escape l : strip (esc l) = esc (strip l).
+Proof. exact (strip_esc l). Qed.
+Print Assumptions C01_strip_escape.
+
+(* short form: the text-row reader, started on a written label or name, stops exactly at
+   the closing quote and returns the label -- for EVERY label: quotes, runs of quotes at
+   the start, middle or end, newlines, '=' and digits included *)
+Theorem C01_short_text_row l rest : fetch_text_row (quoted l ++ 10%N :: rest) = Ok (strip l, rest).
+Proof. exact (fetch_text_row_quoted l rest). Qed.
+Print Assumptions C01_short_text_row.
+
+(* short form: a number row is read back as the token that was written *)
+Theorem C01_short_number_row t rest : plain_tok t = true -> fetch_row (t ++ 10%N :: rest) = Ok (t, rest).
+Proof. exact (fetch_row_plain t rest). Qed.
+Print Assumptions C01_short_number_row.
+
+(* short form: the entry loop over the written entries of an interval tier block returns
+   exactly those entries, in order, any number of them *)
+Theorem C01_short_interval_block tab ents fuel :
+  forallb is_DIb ents = true -> forallb (times_plain tab) ents = true -> (length ents < fuel)%nat ->
+  short_intervals fuel (flat_map (short_entry tab) ents) = map (rd_entry tab) ents.
+Proof. exact (short_intervals_printed tab ents fuel). Qed.
+Print Assumptions C01_short_interval_block.
+
+Theorem C01_short_point_block tab ents fuel :
+  forallb (fun e => negb (is_DIb e)) ents = true -> forallb (times_plain tab) ents = true -> (length ents < fuel)%nat ->
+  short_points fuel (flat_map (short_entry tab) ents) = map (rd_entry tab) ents.
+Proof. exact (short_points_printed tab ents fuel). Qed.
+Print Assumptions C01_short_point_block.
+
+(* long form: the greedy quoted group of the text / mark field of a written entry is the
+   escaped label, and un-doubling it gives the label back, for every label *)
+Theorem C01_long_text_field l tail :
+  forallb (fun c => negb (isq c)) tail = true -> ws_to_eol tail = true ->
+  match quoted_group true (esc l ++ 34%N :: tail) [] None with
+  | Some g => unesc (strip g) = strip l
+  | None => False
+  end.
+Proof. exact (long_text_field_roundtrip l tail). Qed.
+Print Assumptions C01_long_text_field.
+
+(* long form: the single-line group used for tier names *)
+Theorem C01_long_name_field body tail :
+  forallb (fun c => negb (c =? 10)%N) body = true ->
+  forallb (fun c => negb (isq c)) tail = true -> ws_to_eol tail = true ->
+  quoted_group false (body ++ 34%N :: tail) [] None = Some body.
+Proof. intros A B C. exact (quoted_group_line body tail [] None A B C). Qed.
+Print Assumptions C01_long_name_field.
+
+(* the reader before the repair of F2 did not un-double point marks: witness *)
+Theorem C01_long_point_mark_legacy_refuted :
+  exists el, parse_long_point false el = Ok (RP [49%N] [34%N; 34%N])
+          /\ parse_long_point true el = Ok (RP [49%N] [34%N]).
+Proof.
+  exists (T "]:" ++ [10%N] ++ T "number = 1 " ++ [10%N] ++ T "mark = """""""" " ++ [10%N]).
+  vm_compute. split; reflexivity.
+Qed.
+Print Assumptions C01_long_point_mark_legacy_refuted.
+
+(* non-vacuity *)
+Example C01_example :
+  fetch_text_row (quoted [34%N; 97%N; 34%N; 34%N; 10%N; 61%N; 34%N] ++ 10%N :: [49%N; 10%N])
+  = Ok ([34%N; 97%N; 34%N; 34%N; 10%N; 61%N; 34%N], [49%N; 10%N]).
+Proof. vm_compute. reflexivity. Qed.
